@@ -31,21 +31,72 @@ def frame(d):
 
 
 class Peer:
-    def __init__(self, rig):
+    """The harness end of one TCP connection of the library.
+
+    `block` > 0: other programs (listening sockets of the harness) hold the
+    first `block` local ports the library would bind the connection to - the
+    default lang_port() + 1 ..., or the documented `local_port` argument of
+    NetAddr.connect (explicit=True) - so the socket ends up on a later port of
+    the range.  The port messages of this connection arrive on is what the
+    kernel of the accepting side reports as the connection's remote port
+    (`self.port`), never what the library says about it."""
+
+    def __init__(self, rig, block=0, explicit=False):
         from sc3.base.netaddr import NetAddr
         self.rig = rig
+        self.blockers, self.blocked = [], set()
         self.srv = socket.socket()
         self.srv.bind(('127.0.0.1', 0))
         self.srv.listen(1)
         self.addr = self.srv.getsockname()
         self.target = NetAddr('127.0.0.1', self.addr[1])
+        kw = {}
+        if explicit:
+            probe = socket.socket()
+            probe.bind(('127.0.0.1', 0))
+            self.first = probe.getsockname()[1]
+            if block:
+                probe.listen(1)
+                self.blockers.append(probe)
+                self.blocked.add(self.first)
+            else:
+                probe.close()
+            kw['local_port'] = self.first
+        else:
+            self.first = NetAddr.lang_port() + 1
+        for p in range(self.first, self.first + block):
+            if p in self.blocked:
+                continue
+            b = socket.socket()
+            try:
+                b.bind(('127.0.0.1', p))
+                b.listen(1)
+                self.blockers.append(b)
+                self.blocked.add(p)
+            except OSError:
+                # not available to the harness - which says nothing about the
+                # library: its sockets may re-use the port of a connection that
+                # was closed a moment ago (SO_REUSEADDR)
+                b.close()
         done = threading.Event()
-        self.target.connect(on_complete=lambda *a: done.set())
-        self.srv.settimeout(10)
-        self.conn, self.lib_end = self.srv.accept()
-        self.conn.setsockopt(socket.IPPROTO_TCP, socket.TCP_NODELAY, 1)
-        self.ok = done.wait(10)
+        self.ok = False
+        self.conn = None
+        self.port = None
+        self.error = None
+        try:
+            self.target.connect(on_complete=lambda *a: done.set(), **kw)
+            self.srv.settimeout(10)
+            self.conn, self.lib_end = self.srv.accept()
+            self.conn.setsockopt(socket.IPPROTO_TCP, socket.TCP_NODELAY, 1)
+            self.ok = done.wait(10)
+            self.port = self.lib_end[1]
+        except OSError as e:
+            self.error = str(e)
         self.itf = self.target._osc_interface
+        self.walked = self.ok and self.port != self.first
+        if self.ok and self.port in self.blocked:
+            self.ok = False         # (cannot happen: the harness holds that port)
+            self.error = 'connection came from a port the harness holds'
 
     def alive(self):
         t = getattr(self.itf, '_tcp_thread', None)
@@ -56,30 +107,99 @@ class Peer:
             self.target.disconnect()
         except Exception:
             pass
-        for s in (self.conn, self.srv):
+        for s in [self.conn, self.srv] + self.blockers:
             try:
-                s.close()
+                if s is not None:
+                    s.close()
+            except Exception:
+                pass
+        self.blockers = []
+
+
+class PortResponders:
+    """Standing responders of one connection, filtered on the receive port:
+    one per path on the port the connection really uses (must fire once for
+    every message of that path, with that port), one per path on the first
+    candidate port when other programs held it (nothing of this connection
+    arrived there: must stay silent)."""
+
+    def __init__(self, rig, peer, acc):
+        from sc3.base.responders import OscFunc
+        self.rig, self.peer, self.acc = rig, peer, acc
+        self.fired = []          # (which, uid, port handed over)
+        self.objs = []
+        self.opened = None
+        for path in gen.HIST_PATHS:
+            self.objs.append(OscFunc(self._cb('real'), path, recv_port=peer.port))
+        if peer.walked:
+            try:
+                for path in gen.HIST_PATHS:
+                    self.objs.append(OscFunc(self._cb('first'), path, recv_port=peer.first))
+                acc.count('tcp_responders_on_first_candidate_port')
+            except OSError:
+                acc.count('tcp_first_candidate_udp_port_not_available')
+            if rig.adopt_port(peer.first) is not None:
+                self.opened = peer.first
+
+    def _cb(self, which):
+        def cb(msg, time, addr, port):
+            self.fired.append((which, msg[1] if len(msg) > 1 else None, port))
+        return cb
+
+    def close(self):
+        for o in self.objs:
+            try:
+                o.free()
+            except Exception:
+                pass
+        if self.opened is not None:
+            try:
+                self.rig.close_port(self.opened)
             except Exception:
                 pass
 
 
-def run(spec, acc):
+def connect(rig, acc, rng):
+    """A fresh connection; two out of three behind 1-3 held ports."""
+    block = rng.choice([0, 1, 1, 2, 3, 2])
+    explicit = rng.random() < 0.4
+    peer = Peer(rig, block=block, explicit=explicit)
+    acc.count('tcp_connections')
+    if peer.ok:
+        acc.count(f"tcp_connections/{'local_port' if explicit else 'default'}/"
+                  f"{'behind-held-ports' if peer.walked else 'first-port'}")
+        if peer.walked:
+            acc.count('tcp_connections_behind_held_ports')
+    return peer
+
+
+def run(spec, acc, rig=None, every=None):
     from .c18_rig import Rig
-    rig = Rig()
-    peer = Peer(rig)
-    if not peer.ok:
-        acc.mark_inconclusive('TCP connection to the harness peer not established')
-        return
+    if rig is None:
+        rig = Rig()
+    # a fresh connection every `every` cases (most of them behind ports other
+    # programs hold), so that the receive port of a connection is not always
+    # the first candidate
+    every = every or max(20, spec['shard'].get('n', 1000) // 12)
+    peer = resp = None
     uid = 0
+    n_on_peer = 0
     for i in iter_cases(spec):
         rng = case_rng(spec['seed'], 'C18', 'tcp', i)
-        if not peer.alive() or not peer.ok:
-            peer.close()
-            peer = Peer(rig)
-            acc.count('tcp_reconnects')
+        if peer is None or n_on_peer >= every or not peer.alive() or not peer.ok:
+            if peer is not None:
+                resp.close()
+                peer.close()
+                acc.count('tcp_reconnects')
+            peer = connect(rig, acc, case_rng(spec['seed'], 'C18', 'tcp-connect', i))
             if not peer.ok:
-                acc.mark_inconclusive('TCP reconnect failed')
+                acc.mark_inconclusive('TCP connection to the harness peer not established: '
+                                      + str(peer.error))
+                peer.close()
                 return
+            resp = PortResponders(rig, peer, acc)
+            n_on_peer = 0
+        n_on_peer += 1
         msgs = []
         for _ in range(rng.choice([1, 1, 2, 3, 4])):
             uid += 1
@@ -105,7 +225,7 @@ def run(spec, acc):
             chunks = [stream[a:b] for a, b in zip([0] + cuts, cuts + [len(stream)])]
         big = len(stream) > 60000
         cls = 'whole-frames' if mode in ('whole', 'coalesced') and not big else 'fragmented'
-        rig.raw.clear(); rig.errs.clear()
+        rig.raw.clear(); rig.errs.clear(); resp.fired.clear()
         rig.mon.arm(len(stream))
         t0 = rig.main.elapsed_time()
         try:
@@ -163,7 +283,11 @@ def run(spec, acc):
              'delivered': [[x if not isinstance(x, bytes) or len(x) < 20 else
                             f'<{len(x)} bytes>' for x in m] for m, *_ in got][:6],
              'canary_delivered': ok, 'receive_thread_alive': peer.alive(),
-             'logged': [e['exc'] for e in rig.errs][:4]}
+             'logged': [e['exc'] for e in rig.errs][:4],
+             'connection': {'first_candidate_port': peer.first,
+                            'held_by_others': sorted(peer.blocked),
+                            'local_port_of_connection': peer.port,
+                            'library_says': peer.itf.port}}
         acc.case(h64(repr((mode, [len(c) for c in chunks], msgs))),
                  nontrivial=cls == 'fragmented')
         bad = None
@@ -173,17 +297,44 @@ def run(spec, acc):
             for (m, t, sender, port), (a, g) in zip(got, msgs):
                 if m[0] != a or not same_value(m[1:], g):
                     bad = 'wrong-message'
-                elif sender != tuple(peer.addr) or port != peer.itf.port:
+                elif port != peer.port:
+                    bad = 'wrong-recv-port'
+                elif sender != tuple(peer.addr):
                     bad = 'wrong-sender-or-port'
                 elif not (t0 - 1e-6 <= t <= t1 + 1e-6):
                     bad = 'wrong-time'
-        if bad:
+        if bad == 'wrong-recv-port':
+            acc.violation('C18/recv-port/tcp/not-the-port-of-the-connection'
+                          + ('/behind-held-ports' if peer.walked else ''), dict(w, what=bad))
+        elif bad:
             key = ('C18/tcp/fragmented-frame-not-reassembled' if cls == 'fragmented'
                    and bad in ('message-lost', 'receiver-dead', 'wrong-message')
                    else f'C18/tcp/{bad}/{cls}')
             acc.violation(key, dict(w, what=bad))
         else:
             acc.count('tcp_messages_delivered_exactly', len(msgs))
+            if peer.walked:
+                acc.count('tcp_messages_behind_held_ports', len(msgs))
+            # responders filtered on the receive port
+            fired = list(resp.fired)
+            for a, g in msgs:
+                n_real = [f for f in fired if f[0] == 'real' and f[1] == g[0]]
+                n_first = [f for f in fired if f[0] == 'first' and f[1] == g[0]]
+                acc.count('tcp_recv_port_filter_checks')
+                fw = dict(w, message=[a, g[0]], fired=fired[:8])
+                if n_first:
+                    acc.violation('C18/recv-port/tcp/responder-on-a-port-held-by-others-fires',
+                                  fw)
+                    break
+                if len(n_real) != 1:
+                    acc.violation('C18/recv-port/tcp/responder-on-the-connection-port-'
+                                  + ('silent' if not n_real else 'fires-twice'), fw)
+                    break
+                if n_real[0][2] != peer.port:
+                    acc.violation('C18/recv-port/tcp/not-the-port-of-the-connection', fw)
+                    break
         if acc.want_sample() and cls == 'fragmented' and len(stream) < 200:
             acc.sample({'kind': 'tcp', **w})
-    peer.close()
+    if peer is not None:
+        resp.close()
+        peer.close()
